@@ -414,6 +414,7 @@ add({"name": "BitStream_scan_for", "file": "dfs/track.h",
      "rules": [(r"\braw_pos\(", "BitStream_raw_pos(self, ", 1), (r"\brawbit\(", "BitStream_rawbit(self, ", 1),
                (r"\braw_bit_size_\b", "self->raw_bit_size_", ">=1"), (r"\bstride_\b", "self->stride_", ">=1"),
                (r"return std::make_pair\(([^;]*)\);", r"{ struct opt_scan some_; some_.has = 1; scan_pair(&some_, \1); return some_; }", 1),
+               (r"(got = \(got << 1u\) \| 1u;)", r"\1 SCAN_GHOST_LOG  /* ghost: the word seen at the ghost position g_q */", 1),
                (r"return std::nullopt;", "{ struct opt_scan none_; none_.has = 0; none_.first = 0; none_.second = 0; return none_; }", 1),
                (r"(for \(size_t i = BitStream_raw_pos\(self, start\); i < self->raw_bit_size_; \+\+i_cooked, i \+= self->stride_\))", r"\1 SCAN_LOOP_CONTRACT", 1)]})
 VERBOSE_BLOCK = (r"if \(verbose\)\s*\{[^{}]*\}", "/* verbose diagnostics dropped */")
@@ -489,9 +490,9 @@ add({"name": "decode_fm_track", "file": "dfs/track_fm.cc",
                (r"bits\.size\(\)", "BitStream_size(bits)", ">=1"),
                (r"enum class DecodeState", "enum DecodeState", 1), (r"DecodeState::", "", ">=1"),
                (r"\bSector sec;", "struct FmSector sec; fmsector_init(&sec);", 1),
-               (r"auto found = bits\.scan_for\(", "struct opt_scan found = BitStream_scan_for_v(bits, ", 1),
+               (r"auto (\w+) = bits\.scan_for\(", r"struct opt_scan \1 = BitStream_scan_for_v(bits, ", ">=1"),
                (r"std::optional<unsigned int> found = find_record_address_mark\(\);", "struct opt_uint found = fm_find_record_address_mark_v(&thisbit, bits, bits_avail);", 1),
-               (r"if \(!found\)", "if (!found.has)", ">=1"), (r"found->first", "found.first", ">=1"), (r"\*found\b", "found.val", ">=1"),
+               (r"if \(!found\)", "if (!found.has)", ">=1"), (r"\((\w+) && \1->first", r"(\1.has && \1.first", ">=0"), (r"\b(\w+)->first\b", r"\1.first", ">=1"), (r"\*found\b", "found.val", ">=1"),
                (r"std::string error;", "/* error text dropped */", ">=0"),
                (r"std::vector<byte> (\w+);", r"struct decvec \1; decvec_init(&\1);", ">=1"),
                (r"id\.push_back\(byte\(([^;]*)\)\);", r"decvec_push_v(&id, (byte)(\1));", ">=0"),
